@@ -7,6 +7,7 @@ import json
 import json as _json
 import math
 import os
+import re
 from collections import Counter
 
 import numpy as np
@@ -65,15 +66,44 @@ ASSUMPTIONS = [
     "HTTP layer of Service/AQTSampler/PasqalSampler is replaced by module-level fakes for the duration of one case",
 ]
 SENSITIVITY = [
-    "ionq x-pow 'vi' special case tested modulo 1", "ionq z-pow 'ti' special case tested modulo 1",
-    "ionq y-pow rotation in half-turn units", "ionq cnot control/target swapped", "ionq pauliexp time sign convention",
-    "ionq pauliexp string not reversed", "ionq pauliexp drops the coefficient sign", "ionq ms phases swapped",
-    "ionq native zz angle negated", "ionq metadata chunk loses the 40th character", "ionq metadata targets sorted",
-    "ionq job keeps little-endian keys", "ionq job measurement_dict drops chunk order", "ionq QPUResult per-key bits reversed",
-    "ionq SimulatorResult.probabilities(key) wrong shift", "ionq SimulatorResult.to_cirq_result bit order",
-    "ionq client drops error_mitigation", "aqt R phase sign", "aqt legacy->arnica swaps theta/phi", "aqt RXX qubits reversed... (equivalent, see report)",
-    "aqt local simulator swaps theta/phi", "aqt result column order", "pasqal resolves with the wrong resolver",
+    "ionq z-pow 'ti' also emitted for exponent 0.75 (special case tested modulo 1) [repo tests pass]",
+    "ionq swap accepted at every integer exponent [repo tests pass]",
+    "ionq y special case also at even exponents [repo tests pass]",
+    "ionq batch drops dry_run [repo tests pass]",
+    "ionq job measurement_dict sorts targets [repo tests pass]",
+    "ionq SimulatorResult.to_cirq_result sorts the weights away from their outcomes [repo tests pass]",
+    "ionq service batch job_settings dropped [repo tests pass]",
+    "ionq service passes noise as error_mitigation for batches [repo tests pass]",
+    "ionq cnot control/target by index instead of by role [repo tests pass]",
+    "aqt R phase sign [repo tests pass]",
+    "aqt result columns reversed [repo tests pass]",
+    "aqt local simulator negates the R phase [repo tests pass]",
+    "aqt Z gate sent as half exponent [repo tests pass]",
+    "pasqal repetitions header fixed to 1 [repo tests pass]",
+    "ionq sampler pairs results with resolvers in reverse [repo tests pass]",
+    "ionq sampler resolves every job with the first resolver [repo tests pass]",
+    "ionq pauliexp string not reversed [repo tests catch it]",
+    "ionq measurement targets sorted in metadata [repo tests catch it]",
+    "ionq qubit count = number of used qubits [repo tests catch it]",
+    "ionq metadata chunk loses the 40th character [repo tests catch it]",
+    "ionq MSGate.phases swapped [repo tests catch it]",
+    "ionq job keeps little-endian keys for simulator results [repo tests catch it]",
+    "ionq QPUResult per-key value bits reversed [repo tests catch it]",
+    "aqt legacy->arnica swaps theta and phi [repo tests catch it]",
+    "pasqal body not resolved [repo tests catch it]",
 ]
+
+
+def uncovered():
+    return [
+        "the real vendor services: IonQ/AQT gate semantics are taken from the definitions quoted in the repository (vf/ref/ionq.py, vf/ref/aqt.py); a definition that the repository and the vendor both get wrong the same way is invisible",
+        "field names of the wire formats beyond what the repository documents (e.g. the native ZZ angle travels as 'phase'; IonQ's own examples call it 'angle')",
+        "calibration / job listing endpoints, retry and polling logic of the HTTP clients",
+        "AQT noisy local simulation (simulate_ideal=False) and sampled distributions beyond support membership (the local simulator exposes no seed)",
+        "Pasqal: only the request/response plumbing (the body is Cirq JSON, whose fidelity is C11's subject)",
+        "IonQ API limits (max qubits per backend, metadata key count) are not part of the property",
+    ]
+
 
 ATOLS = [1e-8, 1e-8, 1e-8, 1e-6, 1e-4]
 
@@ -158,7 +188,6 @@ def _cmp_unitary(what, got, want, tol):
 
 
 def _circuit_unitary(circuit, n):
-    circuit = getattr(circuit, "_vf_meaning", circuit)
     return circuit.unitary(qubit_order=cirq.LineQubit.range(n), ignore_terminal_measurements=True, dtype=np.complex128)
 
 
@@ -398,23 +427,6 @@ def _build_ionq_circuit(c, native, atol):
     qs = [cirq.LineQubit(int(x)) for x in c["xs"]]
     ops = [_build_native_op(o, qs) if native else _build_ionq_op(o, qs, atol) for o in c["ops"]]
     circuit = cirq.Circuit(ops)
-    # Meaning of PauliStringPhasor ops: by the class docstrings the identity factors of the string leave their qubits
-    # alone (and an all-identity string is the global phase exp(i pi exponent_pos)).  cirq.unitary() of the forms that
-    # carry explicit identity qubits (PauliStringPhasorGate('YI'), PauliStringPhasor(.., qubits=superset)) entangles the
-    # identity qubits instead -- a cirq-core defect outside C17's anchors, reported separately -- so the *meaning* of
-    # the circuit is computed from the equivalent phasor on the non-identity qubits only.
-    mops = []
-    for op, o in zip(ops, c["ops"]):
-        if o["k"] == "PSP":
-            w = [qs[i] for i in _wires(o["w"], len(qs))]
-            ps = o["ps"][: len(w)]
-            if set(ps) <= {"I"}:
-                continue
-            pstr = cirq.PauliString({q: getattr(cirq, ch) for q, ch in zip(w, ps) if ch != "I"}, coefficient=o["sign"])
-            neg, pos = _psp_exponents(o)
-            op = cirq.PauliStringPhasor(pstr, exponent_neg=neg, exponent_pos=pos)
-        mops.append(op)
-    meaning = cirq.Circuit(mops)
     meas = []
     for m in c["meas"]:
         t = [qs[i] for i in _wires(m["t"], len(qs))]
@@ -433,7 +445,6 @@ def _build_ionq_circuit(c, native, atol):
     if len(circuit) == 0:
         raise Reject("empty circuit")
     n = max(q.x for q in circuit.all_qubits()) + 1
-    circuit._vf_meaning = meaning
     return circuit, n, [(k, [q.x for q in t]) for k, t, _ in meas], len(ops)
 
 
@@ -577,8 +588,9 @@ def oracle_ionq_serializer(r):
     _pending(sub, r)
     built, atol, prog, err = _serialize_ionq(r)
     if err is not None:
-        if all(_must_accept(c, r["native"], atol) for c in r["circs"]) and "too long for IonQ API" not in str(err) \
-                and not _has_ionq_repeated_key(sub, r):
+        if _has_ionq_invert_mask(sub, r) or _has_ionq_repeated_key(sub, r):
+            return {"nontrivial": False, "unsupported_measurement_rejected": True}
+        if all(_must_accept(c, r["native"], atol) for c in r["circs"]) and "too long for IonQ API" not in str(err):
             raise Violation(f"circuit inside the documented IonQ vocabulary was rejected: {type(err).__name__}: {err}")
         raise Reject(f"documented rejection: {type(err).__name__}")
     worst, chunks = _check_program(r, built, atol, prog)
@@ -953,24 +965,25 @@ class _FakeIonQ:
 
     def __init__(self):
         self.posted = []
-        self.job = None
-        self.batch = False
+        self.jobs = {}
 
     def post(self, url, json=None, headers=None):  # noqa: A002
         body = _json.loads(_json.dumps(json))
         self.posted.append(body)
-        self.batch = body.get("type") == "ionq.multi-circuit.v1"
-        self.job = {"id": "job-7", "status": "completed", "backend": body["backend"], "name": body.get("name", ""),
-                    "metadata": body["metadata"], "stats": {"qubits": str(body["input"]["qubits"])}}
-        return _Resp({"id": "job-7", "status": "ready"})
+        jid = f"job-{len(self.posted)}"
+        self.jobs[jid] = {"id": jid, "status": "completed", "backend": body["backend"], "name": body.get("name", ""),
+                          "metadata": body["metadata"], "stats": {"qubits": str(body["input"]["qubits"])}}
+        return _Resp({"id": jid, "status": "ready"})
 
     def get(self, url, params=None, headers=None):
+        jid = re.search(r"/jobs/(job-\d+)", url).group(1)
         if "/results" in url:
-            body = self.posted[-1]
+            body = self.posted[int(jid.split("-")[1]) - 1]
+            batch = body.get("type") == "ionq.multi-circuit.v1"
             n = body["input"]["qubits"]
             us = RI.interpret(body["input"])
             out = {}
-            qn = json.loads(body["metadata"]["qubit_numbers"]) if self.batch else [n]
+            qn = json.loads(body["metadata"]["qubit_numbers"]) if batch else [n]
             for i, (u, ni) in enumerate(zip(us, qn)):
                 psi = u[:, 0]
                 h = {}
@@ -981,8 +994,8 @@ class _FakeIonQ:
                         key = str(RI.little_endian_key(bits))
                         h[key] = h.get(key, 0.0) + p
                 out[f"uuid-{i}"] = h
-            return _Resp(out if self.batch else out["uuid-0"])
-        return _Resp(self.job)
+            return _Resp(out if batch else out["uuid-0"])
+        return _Resp(self.jobs[jid])
 
 
 @contextlib.contextmanager
@@ -1096,6 +1109,77 @@ def _service_case(draw):
     r["tgt"] = draw(st.integers(0, 1))
     r["reps"] = draw(st.integers(0, 900))
     return r
+
+
+@st.composite
+def _sampler_case(draw):
+    base = draw(_ionq_circ(False, max_ops=4))
+    base["pad"] = 0
+    for m in base["meas"]:
+        m["inv"] = []
+    vals = draw(st.lists(st.sampled_from([0.0, 1.0, 0.5, 0.25, 1.5, 2.0, 1 / 3]), min_size=2, max_size=3, unique=True))
+    return {"base": base, "vals": vals, "reps": draw(st.integers(50, 4000)), "wire": draw(st.integers(0, 4)),
+            "gate": draw(st.sampled_from(["X", "Y", "XX"]))}
+
+
+def oracle_ionq_sampler(r):
+    """cirq_ionq.Sampler.run_sweep on a QPU target: job i belongs to resolver i (params and histogram)."""
+    import sympy
+
+    base = json.loads(json.dumps(r["base"]))
+    base["ops"] = [o for o in base["ops"] if _must_accept({"ops": [o]}, False, 1e-8)]
+    keys = [m["key"] for m in base["meas"]]
+    if len(set(keys)) != len(keys) or not r["vals"]:
+        raise Reject("repeated key")
+    circuit, n, expected, nops = _build_ionq_circuit(base, False, 1e-8)
+    qs = sorted(circuit.all_qubits())
+    gates = [op for op in circuit.all_operations() if not cirq.is_measurement(op)]
+    meas = [op for op in circuit.all_operations() if cirq.is_measurement(op)]
+    t = sympy.Symbol("t")
+    q = qs[r["wire"] % len(qs)]
+    if r["gate"] == "XX" and len(qs) >= 2:
+        par = cirq.XX(q, qs[(r["wire"] + 1) % len(qs)]) ** t
+    else:
+        par = (cirq.Y if r["gate"] == "Y" else cirq.X)(q) ** t
+    if not meas:
+        meas = [cirq.measure(*qs, key="all")]
+        expected = [("all", [x.x for x in qs])]
+    program = cirq.Circuit(gates, par, meas)
+    resolvers = [cirq.ParamResolver({"t": v}) for v in r["vals"]]
+    reps = int(r["reps"])
+    fake = _FakeIonQ()
+    svc = cirq_ionq.Service(remote_host="http://example.com", api_key="key")
+    with _patched(_ionq_client_mod, requests=fake):
+        try:
+            results = svc.sampler(target="qpu").run_sweep(program, params=resolvers, repetitions=reps)
+        except (ValueError, NotSupportedPauliexpParameters) as e:
+            raise Violation(f"circuit inside the documented IonQ vocabulary was rejected: {type(e).__name__}: {e}")
+    if len(results) != len(resolvers) or len(fake.posted) != len(resolvers):
+        raise Violation(f"{len(results)} results / {len(fake.posted)} jobs for {len(resolvers)} resolvers")
+    nn = max(x.x for x in program.all_qubits()) + 1
+    distinct = set()
+    for i, (res, pr) in enumerate(zip(results, resolvers)):
+        if dict(res.params.param_dict) != dict(pr.param_dict):
+            raise Violation(f"result {i} carries params {res.params}, expected {pr}")
+        psi = _circuit_unitary(cirq.resolve_parameters(program, pr), nn)[:, 0]
+        probs = np.abs(psi) ** 2
+        slack = 2 ** nn * 0.5 + 1  # the API reports frequencies; every full outcome is rounded to an integer count
+        for key, xs in expected:
+            a = np.asarray(res.measurements[key]).astype(int)
+            if a.ndim != 2 or a.shape[1] != len(xs) or abs(a.shape[0] - reps) > slack:
+                raise Violation(f"result {i} key {key!r}: shape {a.shape}, expected about {(reps, len(xs))}")
+            got = Counter(tuple(row) for row in a.tolist())
+            want = Counter()
+            for idx in range(2 ** nn):
+                if probs[idx] > 1e-12:
+                    bits = L.index_to_digits(idx, [2] * nn)
+                    want[tuple(bits[x] for x in xs)] += float(probs[idx]) * reps
+            bad = [k for k in set(got) | set(want) if abs(got.get(k, 0) - want.get(k, 0.0)) > slack]
+            if bad:
+                raise Violation(f"result {i} (t={r['vals'][i]}) key targets {xs}: counts {dict(got)} do not match the resolved circuit "
+                                f"({ {k: round(v, 1) for k, v in want.items()} })")
+            distinct.add(tuple(sorted((k, round(v)) for k, v in want.items())))
+    return {"nontrivial": len(resolvers) >= 2 and len(distinct) >= 2, "resolvers": len(resolvers)}
 
 
 # ======================================================================================== AQT
@@ -1224,7 +1308,7 @@ def oracle_aqt_payload(r):
     circuit, qs, nsym = _build_aqt(r)
     nchain = len(qs)
     reps = int(r["reps"])
-    ncols = len(circuit.all_qubits())
+    ncols = nchain
     rows = [[(int(v) >> (ncols - 1 - j)) & 1 for j in range(ncols)] for v in (list(r["samples"]) + [0] * reps)[:reps]]
     fake = _FakeAQT(rows)
     host = "http://aqt.example/api/v1/"
@@ -1319,7 +1403,7 @@ def _pasqal_case(draw):
         ar = {"CZ": 2, "CNOT": 2, "CCX": 3, "CCZ": 3}.get(k, 1)
         if ar > n:
             k, ar = "X", 1
-        ops.append({"k": k, "e": draw(G.exponents()), "p": draw(G.exponents()), "w": perm[:ar], "sym": draw(_one_in(5))})
+        ops.append({"k": k, "e": draw(G.exponents()), "p": draw(G.exponents()), "w": perm[:ar], "sym": draw(_one_in(3))})
     return {"kind": kind, "n": n, "ops": ops, "meas": draw(st.booleans()), "reps": draw(st.integers(1, 50)),
             "resolvers": draw(st.lists(st.fixed_dictionaries({"a": G.exponents(), "b": G.exponents()}), min_size=1, max_size=3)),
             "rows": draw(st.lists(st.integers(0, 15), min_size=1, max_size=4)), "coord": draw(st.sampled_from([1.0, 0.5, 1.5, 0.1]))}
@@ -1426,14 +1510,17 @@ def oracle_pasqal(r):
 # ======================================================================================== registration
 
 SUBCHECKS = [
-    SubCheck("ionq_qis", _ionq_case(False), oracle_ionq_serializer, quick=3000, thorough=120000, shards_quick=4, shards_thorough=16,
+    SubCheck("ionq_qis", _ionq_case(False), oracle_ionq_serializer, quick=2400, thorough=120000, shards_quick=5, shards_thorough=16,
              essential={"near_special": 0.2, "pauliexp_asym": 0.08, "multi_key_unordered": 0.1, "chunks>=2": 0.1}),
-    SubCheck("ionq_native", _ionq_case(True), oracle_ionq_serializer, quick=1200, thorough=40000, shards_quick=2, shards_thorough=8),
-    SubCheck("ionq_rejects", _reject_case(), oracle_ionq_rejects, quick=800, thorough=20000, shards_quick=1, shards_thorough=4),
+    SubCheck("ionq_native", _ionq_case(True), oracle_ionq_serializer, quick=900, thorough=40000, shards_quick=2, shards_thorough=8,
+             essential={"ms_asym_phases": 0.2}),
+    SubCheck("ionq_rejects", _reject_case(), oracle_ionq_rejects, quick=600, thorough=20000, shards_quick=1, shards_thorough=4),
     SubCheck("ionq_results", _results_case(), oracle_ionq_results, quick=2500, thorough=100000, shards_quick=2, shards_thorough=16,
              essential={"asymmetric_hist": 0.3, "multi_key": 0.2}),
-    SubCheck("ionq_service", _service_case(), oracle_ionq_service, quick=800, thorough=30000, shards_quick=2, shards_thorough=8),
-    SubCheck("aqt_payload", _aqt_case(), oracle_aqt_payload, quick=1500, thorough=60000, shards_quick=2, shards_thorough=8),
-    SubCheck("aqt_local", _aqt_case(clifford=True), oracle_aqt_local, quick=300, thorough=6000, shards_quick=2, shards_thorough=8),
-    SubCheck("pasqal_body", _pasqal_case(), oracle_pasqal, quick=500, thorough=15000, shards_quick=1, shards_thorough=4),
+    SubCheck("ionq_service", _service_case(), oracle_ionq_service, quick=600, thorough=30000, shards_quick=3, shards_thorough=8),
+    SubCheck("ionq_sampler", _sampler_case(), oracle_ionq_sampler, quick=250, thorough=8000, shards_quick=1, shards_thorough=4),
+    SubCheck("aqt_payload", _aqt_case(), oracle_aqt_payload, quick=1200, thorough=60000, shards_quick=2, shards_thorough=8),
+    SubCheck("aqt_local", _aqt_case(clifford=True), oracle_aqt_local, quick=300, thorough=6000, shards_quick=1, shards_thorough=8,
+             essential={"deterministic": 0.3}),
+    SubCheck("pasqal_body", _pasqal_case(), oracle_pasqal, quick=400, thorough=15000, shards_quick=1, shards_thorough=4),
 ]
